@@ -383,8 +383,10 @@ Proof. intros HI Hs. start s HI Hs. constructor; unfold wtok, ctok; projs; auto.
 
 Theorem inv_step cf s l s' : Inv cf s -> step cf s l = Some s' -> Inv cf s'.
 Proof.
-  destruct l; eauto using pres_getchpop, pres_getchspawn, pres_getchfail, pres_send, pres_recv, pres_serve, pres_stamp,
-    pres_release, pres_exit, pres_cleanbegin, pres_cleancollect, pres_cleannotify, pres_stop, pres_tick.
+  destruct l.
+  - apply pres_getchpop. - apply pres_getchspawn. - apply pres_getchfail. - apply pres_send. - apply pres_recv.
+  - apply pres_serve. - apply pres_stamp. - apply pres_release. - apply pres_exit. - apply pres_cleanbegin.
+  - apply pres_cleancollect. - apply pres_cleannotify. - apply pres_stop. - apply pres_tick.
 Qed.
 
 Theorem inv_reach cf s : 0 <= maxw cf -> reach cf s -> Inv cf s.
@@ -397,10 +399,11 @@ Proof. induction n as [|n IH]; [reflexivity|]. rewrite !sumw_S, IH. lia. Qed.
 Lemma ctok_places s c : ctok s c = places s c.
 Proof.
   unfold ctok, places, n_rejected, n_held, n_queued, n_serving, n_served.
-  rewrite <- Nat.add_assoc with (m := sumw _ _) (p := sumw _ _), <- sumw_add.
-  f_equal; [f_equal|].
-  apply sumw_ext. intros w _. unfold cin, queued_in, serving_in, cbusy.
-  destruct (wk s w) as [[p q]|]; cbn [pc ch]; [|reflexivity]. reflexivity.
+  assert (A : sumw (nextw s) (fun w => cin c (wk s w)) =
+              (sumw (nextw s) (fun w => queued_in c (wk s w)) + sumw (nextw s) (fun w => serving_in c (wk s w)))%nat).
+  { rewrite <- sumw_add. apply sumw_ext. intros w _. unfold cin, queued_in, serving_in, cbusy.
+    destruct (wk s w) as [[p q]|]; cbn [pc ch]; reflexivity. }
+  rewrite A. unfold sconn, conn_of, citem, item_is. lia.
 Qed.
 
 Theorem each_conn_once cf s : 0 <= maxw cf -> reach cf s ->
@@ -427,7 +430,7 @@ Qed.
 
 Lemma ref_sendable cf s w : 0 <= cap cf -> Inv cf s ->
   (0 < cnt w (map r_w (ready s)) + cnt w (map snd (holding s)) + cnt w (clist (cln s)))%nat ->
-  sendable cf (wk s w) w = true.
+  sendable cf (wk s) w = true.
 Proof.
   intros Hc HI H. unfold sendable. rewrite (referenced_alive _ _ _ HI H). now apply idle_can_send.
 Qed.
@@ -514,4 +517,214 @@ Proof.
   pose proof (wtok_parts _ _ w R) as P. rewrite E in P. cbn [wown pc ch running] in P.
   exists (mkW WExiting q). split; [reflexivity|]. cbn [ch].
   repeat split; try (intros I; apply cnt_In in I; lia). destruct q; [reflexivity|cbn in P; lia].
+Qed.
+
+(* ---------- progress: a non-quiescent reachable state can always take an internal step ---------- *)
+Lemma forallb_false_ex {A} (f : A -> bool) l : forallb f l = false -> exists x, In x l /\ f x = false.
+Proof.
+  induction l as [|a l IH]; cbn; [discriminate|]. destruct (f a) eqn:E; cbn.
+  - intros H. destruct (IH H) as (x & I & F). eauto.
+  - intros _. eauto.
+Qed.
+
+Lemma bsearch_spec crit rd : forall fuel l r, 0 <= l -> r < Z.of_nat (length rd) -> l <= r + 1 ->
+  (Z.to_nat (r - l + 1) <= fuel)%nat ->
+  exists res, bsearch fuel crit rd l r = Some res /\ l - 1 <= res <= r /\
+    forall p, 0 <= p <= r ->
+      (forall q e, 0 <= q <= p -> nth_error rd (Z.to_nat q) = Some e -> r_stamp e < crit) -> p <= res.
+Proof.
+  induction fuel as [|f IH]; intros l r Hl Hr Hlr Hf.
+  - cbn [bsearch]. destruct (l <=? r) eqn:E; [apply Z.leb_le in E; lia|]. apply Z.leb_gt in E.
+    exists r. repeat split; try lia. 
+  - cbn [bsearch]. destruct (l <=? r) eqn:E.
+    2:{ apply Z.leb_gt in E. exists r. repeat split; lia. }
+    apply Z.leb_le in E. cbn zeta.
+    assert (Hm : l <= (l + r) / 2 <= r) by (split; [apply Z.div_le_lower_bound|apply Z.div_le_upper_bound]; lia).
+    set (mid := (l + r) / 2) in *.
+    destruct (nth_error rd (Z.to_nat mid)) as [e|] eqn:En.
+    2:{ apply nth_error_None in En. lia. }
+    destruct (crit >? r_stamp e) eqn:Ec.
+    + destruct (IH (mid + 1) r) as (res & R1 & R2 & R3); try lia.
+      exists res. repeat split; try lia; [exact R1|]. intros p Hp Hq. apply R3; auto.
+    + destruct (IH l (mid - 1)) as (res & R1 & R2 & R3); try lia.
+      exists res. repeat split; try lia; [exact R1|]. intros p Hp Hq.
+      assert (p < mid).
+      { destruct (Z_lt_ge_dec p mid) as [L|G]; [exact L|]. exfalso.
+        specialize (Hq mid e ltac:(lia) En). rewrite Z.gtb_ltb in Ec. apply Z.ltb_ge in Ec. lia. }
+      apply R3; [lia|auto].
+Qed.
+
+Lemma clean_index_spec crit rd : exists i, clean_index crit rd = Some i /\ -1 <= i < Z.of_nat (length rd) /\
+  forall p, 0 <= p < Z.of_nat (length rd) ->
+    (forall q e, 0 <= q <= p -> nth_error rd (Z.to_nat q) = Some e -> r_stamp e < crit) -> p <= i.
+Proof.
+  unfold clean_index. destruct (bsearch_spec crit rd (S (length rd)) 0 (Z.of_nat (length rd) - 1)) as (res & R1 & R2 & R3); try lia.
+  exists res. repeat split; try lia; [exact R1|]. intros p Hp Hq. apply R3; [lia|auto].
+Qed.
+
+Theorem progress cf s : 0 <= maxw cf -> 0 <= cap cf -> reach cf s -> quiescent s = false -> can_progress cf s.
+Proof.
+  intros H Hc R Q. unfold can_progress. unfold quiescent in Q.
+  destruct (holding s) as [|[c w] h] eqn:Eh.
+  2:{ exists (Send c). split; [reflexivity|]. apply (send_enabled cf s c w h); auto. rewrite Eh. cbn. now rewrite Nat.eqb_refl. }
+  destruct (cln s) as [|crit|ws] eqn:Ec.
+  - apply forallb_false_ex in Q as (w & _ & F).
+    destruct (wk s w) as [[p q]|] eqn:E; [|discriminate].
+    destruct p.
+    + destruct q as [|it rest]; [discriminate|]. exists (WorkerRecv w). split; [reflexivity|]. cbn [step]. rewrite E. discriminate.
+    + exists (WorkerServe w false). split; [reflexivity|]. cbn [step]. rewrite E. discriminate.
+    + exists (WorkerStamp w). split; [reflexivity|]. cbn [step]. rewrite E. discriminate.
+    + exists (WorkerRelease w (negb (mustStop s))). split; [reflexivity|]. cbn [step]. rewrite E.
+      destruct (mustStop s); cbn; discriminate.
+    + exists (WorkerExit w). split; [reflexivity|]. cbn [step]. rewrite E. discriminate.
+  - destruct (clean_index_spec crit (ready s)) as (i & Ei & _).
+    exists (CleanCollect (i + 1)). split; [reflexivity|]. cbn [step]. rewrite Ec, Ei, Z.eqb_refl. cbn [negb].
+    destruct (i =? -1); discriminate.
+  - exists CleanNotify. split; [reflexivity|]. eapply notify_enabled; eauto.
+Qed.
+
+(* ---------- logical time: idle workers are collected ---------- *)
+Definition enq_le (a b : rent) : Prop := r_enq a <= r_enq b.
+
+Record TInv (s : st) : Prop := {
+  t_entries : Forall (fun r => r_stamp r <= r_enq r <= clock s) (ready s);
+  t_sorted : StronglySorted enq_le (ready s);
+  t_rel : forall w t q, wk s w = Some (mkW (WRel t) q) -> t <= clock s
+}.
+
+Lemma ss_app_l {A} (R : A -> A -> Prop) l1 l2 : StronglySorted R (l1 ++ l2) -> StronglySorted R l1.
+Proof.
+  induction l1 as [|a l1 IH]; cbn; intros H; [constructor|]. inversion H; subst. constructor; [auto|].
+  apply Forall_app in H3. tauto.
+Qed.
+
+Lemma ss_snoc {A} (R : A -> A -> Prop) l x : StronglySorted R l -> Forall (fun a => R a x) l -> StronglySorted R (l ++ [x]).
+Proof.
+  induction l as [|a l IH]; cbn; intros H F; [repeat constructor|]. inversion H; subst. inversion F; subst.
+  constructor; [auto|]. apply Forall_app. split; [assumption|repeat constructor; assumption].
+Qed.
+
+Lemma ss_skipn {A} (R : A -> A -> Prop) n l : StronglySorted R l -> StronglySorted R (skipn n l).
+Proof.
+  revert l. induction n as [|n IH]; intros l H; [exact H|]. destruct l; [constructor|]. cbn. inversion H; subst. auto.
+Qed.
+
+Lemma Forall_skipn {A} (P : A -> Prop) n l : Forall P l -> Forall P (skipn n l).
+Proof. revert l. induction n as [|n IH]; intros l H; [exact H|]. destruct l; [constructor|]. inversion H; subst. cbn. auto. Qed.
+
+Lemma ss_nth {A} (R : A -> A -> Prop) l : StronglySorted R l -> forall i j a b, (i < j)%nat ->
+  nth_error l i = Some a -> nth_error l j = Some b -> R a b.
+Proof.
+  induction 1 as [|x l S IH F]; intros i j a b L Ha Hb; [destruct i; discriminate|].
+  destruct j as [|j]; [lia|]. destruct i as [|i]; cbn in Ha, Hb.
+  - injection Ha as <-. rewrite Forall_forall in F. apply F. eapply nth_error_In; eauto.
+  - apply (IH i j a b); [lia|exact Ha|exact Hb].
+Qed.
+
+Lemma push_pc f w0 it w x' : push f w0 it w = Some x' -> exists x, f w = Some x /\ pc x = pc x'.
+Proof.
+  unfold push. destruct (f w0) as [x0|] eqn:E; [|eauto]. unfold upd. destruct (Nat.eqb_spec w w0) as [->|]; [|eauto].
+  intros H. injection H as <-. eauto.
+Qed.
+
+Lemma fold_push_pc rd : forall f w x', fold_left (fun f r => push f (r_w r) INil) rd f w = Some x' ->
+  exists x, f w = Some x /\ pc x = pc x'.
+Proof.
+  induction rd as [|r rd IH]; cbn [fold_left]; intros f w x' H; [eauto|].
+  destruct (IH _ _ _ H) as (x1 & E1 & P1). destruct (push_pc _ _ _ _ _ E1) as (x & E & P). exists x. split; [exact E|congruence].
+Qed.
+
+Lemma tinv_init : TInv init.
+Proof. constructor; cbn; [constructor|constructor|discriminate]. Qed.
+
+Ltac startT s HT Hs :=
+  destruct s as [rd wkf nw wc ms ck sn rj hd cl sv]; cbn [step] in Hs; projs; brk Hs;
+  injection Hs as <-; destruct HT as [Te Ts Tr]; projs.
+
+Ltac updrel Tr :=
+  let u := fresh "u" in let t := fresh "t" in let q := fresh "q" in let HH := fresh "HH" in
+  intros u t q HH; unfold upd in HH;
+  match type of HH with context [Nat.eqb u ?w] => destruct (Nat.eqb_spec u w) as [->|] end;
+  [try discriminate HH; try (injection HH as <- <-; lia)|eapply Tr; eauto].
+
+Theorem tinv_step cf s l s' : TInv s -> step cf s l = Some s' -> TInv s'.
+Proof.
+  intros HT Hs. destruct l.
+  - startT s HT Hs. apply unsnoc_spec in E0. subst rd. constructor; projs; eauto.
+    + apply Forall_app in Te. tauto.
+    + eapply ss_app_l; eauto.
+  - startT s HT Hs. constructor; projs; eauto. updrel Tr.
+  - startT s HT Hs. constructor; projs; eauto.
+  - startT s HT Hs. constructor; projs; eauto.
+    intros u t q HH. destruct (push_pc _ _ _ _ _ HH) as ([p' q'] & E' & P). cbn in P. subst p'. eauto.
+  - startT s HT Hs. constructor; projs; eauto. updrel Tr. destruct i; discriminate.
+  - startT s HT Hs. constructor; projs; eauto. updrel Tr.
+  - startT s HT Hs. constructor; projs; eauto. updrel Tr.
+  - startT s HT Hs.
+    + constructor; projs; eauto. updrel Tr.
+    + assert (t <= ck) by (eapply Tr; eauto).
+      constructor; projs; eauto.
+      * apply Forall_app. split; [exact Te|]. repeat constructor; cbn; lia.
+      * apply ss_snoc; [exact Ts|]. eapply Forall_impl; [|exact Te]. unfold enq_le. cbn. intros a Ha. lia.
+      * updrel Tr.
+  - startT s HT Hs. constructor; projs; eauto. updrel Tr.
+  - startT s HT Hs. constructor; projs; eauto.
+  - startT s HT Hs.
+    + constructor; projs; eauto.
+    + constructor; projs; eauto; [now apply Forall_skipn|now apply ss_skipn].
+  - startT s HT Hs.
+    + constructor; projs; eauto.
+    + constructor; projs; eauto.
+      intros u t q HH. destruct (push_pc _ _ _ _ _ HH) as ([p' q'] & E' & P). cbn in P. subst p'. eauto.
+  - startT s HT Hs. constructor; projs; eauto; [constructor|].
+    intros u t q HH. destruct (fold_push_pc _ _ _ _ HH) as ([p' q'] & E' & P). cbn in P. subst p'. eauto.
+  - startT s HT Hs. apply Z.ltb_ge in E. constructor; projs; eauto.
+    + eapply Forall_impl; [|exact Te]. cbn. intros a Ha. lia.
+    + intros u t q HH. specialize (Tr _ _ _ HH). lia.
+Qed.
+
+Theorem tinv_reach cf s : reach cf s -> TInv s.
+Proof. intros R. induction R; [apply tinv_init|eauto using tinv_step]. Qed.
+
+Lemma nth_firstn_lt {A} (l : list A) : forall n p, (p < n)%nat -> nth_error (firstn n l) p = nth_error l p.
+Proof.
+  induction l as [|a l IH]; intros n p L; [now rewrite firstn_nil|].
+  destruct n; [lia|]. destruct p; cbn; [reflexivity|]. apply IH. lia.
+Qed.
+
+(* every worker that has been sitting in `ready` since before the critical time is taken out by the clean pass
+   and will be sent nil — although the binary search assumes an order on lastUseTime that the code does not maintain *)
+Theorem idle_retired cf s crit k s' : 0 <= maxw cf -> reach cf s -> cln s = CCrit crit ->
+  step cf s (CleanCollect k) = Some s' ->
+  forall e, In e (ready s) -> r_enq e < crit ->
+    In (r_w e) (clist (cln s')) /\ ~ In (r_w e) (map r_w (ready s')).
+Proof.
+  intros H R Ec Hs e Ie Le.
+  pose proof (tinv_reach _ _ R) as [Te Ts _].
+  assert (R' : reach cf s') by (econstructor; eauto).
+  pose proof (inv_reach _ _ H R') as HI'.
+  destruct (In_nth_error _ _ Ie) as (p & Ep).
+  assert (Lp : (p < length (ready s))%nat) by (apply nth_error_Some; congruence).
+  destruct (clean_index_spec crit (ready s)) as (i & Ei & Bi & Si).
+  assert (Hpi : Z.of_nat p <= i).
+  { apply Si; [lia|]. intros q e' Hq Eq.
+    assert (Se : r_stamp e' <= r_enq e').
+    { rewrite Forall_forall in Te. apply Te. eapply nth_error_In; eauto. }
+    destruct (Nat.eq_dec (Z.to_nat q) p) as [Eqp|N].
+    - rewrite Eqp, Ep in Eq. injection Eq as <-. lia.
+    - assert (enq_le e' e) by (eapply (ss_nth _ _ Ts (Z.to_nat q) p); eauto; lia). unfold enq_le in *. lia. }
+  cbn [step] in Hs. rewrite Ec, Ei in Hs.
+  destruct (negb (k =? i + 1)); [discriminate|]. destruct (i =? -1) eqn:E1; [apply Z.eqb_eq in E1; lia|].
+  injection Hs as <-. cbn [cln clist ready].
+  assert (I1 : In (r_w e) (map r_w (firstn (Z.to_nat (i + 1)) (ready s)))).
+  { apply in_map. apply (nth_error_In _ p). rewrite nth_firstn_lt by lia. exact Ep. }
+  split; [exact I1|]. intros I2.
+  pose proof (wtok_parts _ _ (r_w e) HI') as P. cbn [ready holding cln clist] in P.
+  apply cnt_In in I1. apply cnt_In in I2. lia.
+Qed.
+
+Lemma run_reach cf tr : forall s s', reach cf s -> run cf s tr = Some s' -> reach cf s'.
+Proof.
+  induction tr as [|l tr IH]; cbn; intros s s' R H; [now injection H as <-|].
+  destruct (step cf s l) eqn:E; [|discriminate]. eapply IH; [|exact H]. econstructor; eauto.
 Qed.
